@@ -464,8 +464,14 @@ func layoutName(m map[int64]int64, width int64) string {
 	return "invalid"
 }
 
+func isSigned(t types.Type) bool {
+	b, ok := t.Underlying().(*types.Basic)
+	return ok && b.Info()&types.IsInteger != 0 && b.Info()&types.IsUnsigned == 0
+}
+
 func runLayout(r *core.Run) {
 	n := 0
+	w24 := 0
 	for _, tc := range []struct {
 		name  string
 		width int64
@@ -549,16 +555,31 @@ func runLayout(r *core.Run) {
 			continue
 		}
 		ok := false
+		signExt := false
 		if len(fn.Blocks) == 1 {
 			if ret, isRet := lastInstr(fn.Blocks[0]).(*ssa.Return); isRet {
-				if c, isCall := stripConv(ret.Results[0]).(*ssa.Call); isCall {
+				v := stripConv(ret.Results[0])
+				// int32(x<<8)>>8 : sign extension of a 24-bit value
+				if sh, isSh := v.(*ssa.BinOp); isSh && sh.Op == token.SHR && linOf(sh.Y).isConst() && linOf(sh.Y).C == 8 {
+					if cv, isCv := sh.X.(*ssa.Convert); isCv && isSigned(cv.Type()) {
+						if shl, isShl := stripConv(cv.X).(*ssa.BinOp); isShl && shl.Op == token.SHL && linOf(shl.Y).isConst() && linOf(shl.Y).C == 8 {
+							v = stripConv(shl.X)
+							signExt = true
+						}
+					}
+				}
+				if c, isCall := v.(*ssa.Call); isCall {
 					if f := c.Call.StaticCallee(); f != nil && f.Name() == "ReadUint"+w {
 						ok = true
 					}
 				}
 			}
 		}
-		r.Check(ok, "ReadInt"+w+" converts ReadUint"+w, fn.Pos(), "", "signed read is not a plain conversion of the unsigned read of the same width")
+		if w == "24" {
+			r.Check(ok && signExt, "ReadInt24 sign-extends ReadUint24", fn.Pos(), "", "a 24-bit signed value must be sign-extended into int32 (e.g. int32(v<<8)>>8); a plain conversion of the unsigned 24-bit value turns every negative number into a positive one")
+		} else {
+			r.Check(ok && !signExt, "ReadInt"+w+" converts ReadUint"+w, fn.Pos(), "", "signed read is not a plain conversion of the unsigned read of the same width")
+		}
 		wf := r.Prog.SSAFunc("", "BinaryWriter", "WriteInt"+w)
 		if wf == nil {
 			r.BrokenAnchor("parse.BinaryWriter.WriteInt" + w)
@@ -575,6 +596,40 @@ func runLayout(r *core.Run) {
 			}
 		}
 		r.Check(ok, "WriteInt"+w+" converts to WriteUint"+w, wf.Pos(), "", "signed write is not a plain conversion to the unsigned write of the same width")
+	}
+	// single-byte reads: data[0] needs len(data) >= 1 (a reader back end may return an empty non-nil slice with its error)
+	for _, name := range []string{"ReadUint8", "ReadByte"} {
+		fn := r.Prog.SSAFunc("", "BinaryReader", name)
+		if fn == nil {
+			r.BrokenAnchor("parse.BinaryReader." + name)
+			continue
+		}
+		var rb *ssa.Call
+		for _, b := range fn.Blocks {
+			for _, in := range b.Instrs {
+				if c, ok := in.(*ssa.Call); ok {
+					if f := c.Call.StaticCallee(); f != nil && f.Name() == "ReadBytes" {
+						rb = c
+					}
+				}
+			}
+		}
+		if rb == nil {
+			r.Unknown(name+" shape", fn.Pos(), "no call to ReadBytes")
+			continue
+		}
+		for _, b := range fn.Blocks {
+			for _, in := range b.Instrs {
+				ia, ok := in.(*ssa.IndexAddr)
+				if !ok || ia.X != ssa.Value(rb) {
+					continue
+				}
+				n++
+				fs := blockFacts(b)
+				need := linAtom("len(%"+rb.Name()+")").add(linOf(ia.Index), -1).add(linConst(1), -1)
+				r.Check(entails(fs, need), name+" bounds", ia.Pos(), "", fmt.Sprintf("data[%s] is read under %v, which does not imply len(data) > %s: a back end that returns an empty (non-nil) slice together with io.EOF makes this index out of range", linOf(ia.Index), factStrings(fs), linOf(ia.Index)))
+			}
+		}
 	}
 	// writer: WriteUintN uses ByteOrder.AppendUintN of the same width; WriteUint24 explicit layout
 	for _, w := range []string{"16", "32", "64"} {
@@ -621,6 +676,7 @@ func runLayout(r *core.Run) {
 				continue
 			}
 			n++
+			w24++
 			order := "BigEndian"
 			if d := b.Idom(); d != nil {
 				if iff, ok := lastInstr(d).(*ssa.If); ok {
@@ -641,7 +697,8 @@ func runLayout(r *core.Run) {
 	} else {
 		r.BrokenAnchor("parse.BinaryWriter.WriteUint24")
 	}
-	r.Floor("byte-layout expressions", n, 8)
+	r.Check(w24 == 2, "WriteUint24 has an explicit layout per byte order", token.NoPos, "", fmt.Sprintf("found %d explicit 3-byte layouts in WriteUint24 (need one for each byte order): the 24-bit write can no longer be matched against the reader's layout", w24))
+	r.Floor("byte-layout expressions", n, 12)
 }
 
 // --------------------------------------------------------------- R-READPOS
